@@ -412,6 +412,67 @@ func init() {
 		return nil
 	}
 
+	// ---- sync.Map: an ordinary map with any-typed keys (sequential; operations are atomic steps) ----
+	smap := func(e *Exec, a []Value) MapV {
+		k := ptrKey(a[0])
+		m, ok := e.syncMaps[k]
+		if !ok {
+			anyT := types.NewInterfaceType(nil, nil)
+			m = e.newMap(anyT, anyT)
+			e.syncMaps[k] = m
+		}
+		return m
+	}
+	intrinsics["(*sync.Map).Load"] = func(e *Exec, fn *ssa.Function, a []Value, c *Frame) Value {
+		v, ok := e.mapGet(smap(e, a), a[1])
+		if !ok {
+			return TupleV{IfaceV{}, e.tt.Bool(false)}
+		}
+		return TupleV{v, e.tt.Bool(true)}
+	}
+	intrinsics["(*sync.Map).Store"] = func(e *Exec, fn *ssa.Function, a []Value, c *Frame) Value {
+		e.mapSet(smap(e, a), a[1], a[2])
+		return nil
+	}
+	intrinsics["(*sync.Map).Delete"] = func(e *Exec, fn *ssa.Function, a []Value, c *Frame) Value {
+		e.mapDelete(smap(e, a), a[1])
+		return nil
+	}
+	intrinsics["(*sync.Map).LoadOrStore"] = func(e *Exec, fn *ssa.Function, a []Value, c *Frame) Value {
+		m := smap(e, a)
+		if v, ok := e.mapGet(m, a[1]); ok {
+			return TupleV{v, e.tt.Bool(true)}
+		}
+		e.mapSet(m, a[1], a[2])
+		return TupleV{a[2], e.tt.Bool(false)}
+	}
+	intrinsics["(*sync.Map).LoadAndDelete"] = func(e *Exec, fn *ssa.Function, a []Value, c *Frame) Value {
+		m := smap(e, a)
+		if v, ok := e.mapGet(m, a[1]); ok {
+			e.mapDelete(m, a[1])
+			return TupleV{v, e.tt.Bool(true)}
+		}
+		return TupleV{IfaceV{}, e.tt.Bool(false)}
+	}
+	intrinsics["(*sync.Map).Range"] = func(e *Exec, fn *ssa.Function, a []Value, c *Frame) Value {
+		md := smap(e, a).obj.val.(*MapData)
+		n := len(md.keys)
+		for i := 0; i < n; i++ {
+			if md.dead[i] {
+				continue
+			}
+			r := e.callFunction(a[1], []Value{md.keys[i], md.vals[i]})
+			if t, ok := r.(*Term); ok && t.IsFalse() {
+				break
+			} else if ok && !t.Const {
+				if !e.Branch(t) {
+					break
+				}
+			}
+		}
+		return nil
+	}
+
 	// ---- sync/atomic (sequential) ----
 	for _, ty := range []string{"Int32", "Int64", "Uint32", "Uint64", "Uintptr"} {
 		intrinsics["sync/atomic.Load"+ty] = func(e *Exec, fn *ssa.Function, a []Value, c *Frame) Value {
